@@ -172,6 +172,8 @@ static rfbBool HandleTRLE(rfbClient *client, int rx, int ry, int rw, int rh) {
         int i = 0, j = 0;
         while (j < h) {
 	  int color, length, buffer_pos = 0;
+          /* every run is read at the start of the buffer: buffer_pos bounds it */
+          buffer = (uint8_t*)(client->raw_buffer);
           /* read color */
           if (!ReadFromRFBServer(client, (char*)buffer, REALBYTES + 1))
             return FALSE;
@@ -214,6 +216,8 @@ static rfbBool HandleTRLE(rfbClient *client, int rx, int ry, int rw, int rh) {
         i = j = 0;
         while (j < h) {
 	  int color, length, buffer_pos = 0;
+          /* every run is read at the start of the buffer: buffer_pos bounds it */
+          buffer = (uint8_t*)(client->raw_buffer);
           /* read color */
           if (!ReadFromRFBServer(client, (char *)buffer, 1))
             return FALSE;
